@@ -27,7 +27,7 @@ def main(tier):
                           "-settings", os.path.join(wd, "settings.ndjson"), "-mitdir", mitdir], timeout=3400)
         # ---- the specification's decision procedure against MIT Kerberos' acceptor on the same minted requests (validates APExchange, not gokrb5)
         import mitcross
-        ma = mitcross.mit_apreq_cross(wd, mitdir, 4000)
+        ma = mitcross.spec_stage(run, mitcross.mit_apreq_cross, wd, mitdir, 4000)
         run.extra["apexchange_vs_mit_acceptor"] = {k: v for k, v in ma.items() if k not in ("first", "disagreeing_deviations")}
         if ma.get("disagreements"):
             vlib.spec_validation_problem(run, "APExchange and MIT's krb5_rd_req disagree on %d of %d requests (deviations: %s); first: %s"
